@@ -163,15 +163,21 @@ func (ec *evalCtx) havocCall(call *ast.CallExpr, fn *types.Func, recv Value, arg
 		}
 		return ec.e().freshValue(ec.st, hint, t, false)
 	}
+	noteErr := func(v Value, t types.Type) Value {
+		if isErrorType(t) {
+			ec.noteFailure(Not(Eq(scalar(v), Int(0))))
+		}
+		return v
+	}
 	switch sig.Results().Len() {
 	case 0:
 		return nil
 	case 1:
-		return mkRes(0, sig.Results().At(0).Type())
+		return noteErr(mkRes(0, sig.Results().At(0).Type()), sig.Results().At(0).Type())
 	}
 	tv := &TupleV{}
 	for i := 0; i < sig.Results().Len(); i++ {
-		tv.Vs = append(tv.Vs, mkRes(i, sig.Results().At(i).Type()))
+		tv.Vs = append(tv.Vs, noteErr(mkRes(i, sig.Results().At(i).Type()), sig.Results().At(i).Type()))
 	}
 	return tv
 }
@@ -332,6 +338,9 @@ func (ec *evalCtx) applyContract(c *Contract, fn *types.Func, call *ast.CallExpr
 	// havoc modifies
 	osig := fn.Origin().Type().(*types.Signature)
 	for mi, m := range c.Modifies {
+		if sc.havocGhost(m) {
+			continue
+		}
 		mt := e.typeOfSpecExpr(c, m)
 		lv := sc.lvalue(m)
 		nv := e.freshValue(ec.st, stripPkg(c.Name)+"."+c.ModText[mi], mt, false)
@@ -484,13 +493,13 @@ func (ec *evalCtx) assignSpec(lhs ast.Expr, v Value, resultNames map[string]int,
 // typeOfSpecExpr type-checks a contract expression in the scope of the
 // function body to obtain its Go type (used for havoc of modifies targets).
 func (e *Engine) typeOfSpecExpr(c *Contract, expr ast.Expr) types.Type {
-	fd := e.funcDecls[c.Key()]
-	pkg := e.funcPkg[c.Key()]
-	if fd == nil || fd.Body == nil {
+	tgt := e.locate(c)
+	if tgt == nil {
 		panic(unsupported("no declaration for %s", c.Key()))
 	}
+	pkg := tgt.pkg
 	info := &types.Info{Types: map[ast.Expr]types.TypeAndValue{}}
-	pos := fd.Body.Lbrace + 1
+	pos := tgt.body.Lbrace + 1
 	if err := types.CheckExpr(pkg.Fset, pkg.Types, pos, expr, info); err != nil {
 		panic(unsupported("modifies %s: %v", exprString(expr), err))
 	}
